@@ -1,6 +1,7 @@
 package main
 
 import (
+	"strconv"
 	"fmt"
 	"os"
 	"sync"
@@ -55,6 +56,7 @@ type Frame struct {
 	deferred []Deferred
 	awaiting bool
 	loopSnap map[int]*HeapSnap
+	site     int // for an inlined frame: ordinal (1-based) of the call among the caller's calls to this callee
 }
 
 // HeapSnap is the heap view at a loop head (after the havoc), for step assertions.
@@ -96,6 +98,7 @@ type State struct {
 	path    []string
 	notes   []string
 	ghost   map[string]Val
+	facts   map[string]bool // top-level conjuncts of everything assumed on this path (for syntactic discharge)
 }
 
 type Obligation struct {
@@ -317,6 +320,10 @@ func (st *State) clone() *State {
 	for k, v := range st.heaps {
 		n.heaps[k] = v
 	}
+	n.facts = make(map[string]bool, len(st.facts))
+	for k := range st.facts {
+		n.facts[k] = true
+	}
 	n.wf = make(map[string]bool, len(st.wf))
 	for k, v := range st.wf {
 		n.wf[k] = v
@@ -390,8 +397,27 @@ func (x *Exec) assume(st *State, cond string) {
 		return
 	}
 	st.add("(assert " + cond + ")")
+	x.recordFacts(st, cond, 0)
 	if strings.Contains(cond, "@p") {
 		x.aliasHeaps(st, cond)
+	}
+}
+
+// recordFacts remembers the top-level conjuncts of an assumed formula: a later obligation whose goal is literally
+// one of them is discharged without a solver (the symbols of a path are immutable, so an assumed formula stays true).
+func (x *Exec) recordFacts(st *State, cond string, depth int) {
+	if len(cond) > 400000 || depth > 6 {
+		return
+	}
+	if st.facts == nil {
+		st.facts = map[string]bool{}
+	}
+	t := strings.TrimSpace(cond)
+	st.facts[t] = true
+	if strings.HasPrefix(t, "(and ") && strings.HasSuffix(t, ")") {
+		for _, c := range splitTop(t[5 : len(t)-1]) {
+			x.recordFacts(st, c, depth+1)
+		}
 	}
 }
 
@@ -1036,6 +1062,23 @@ func (x *Exec) callModifies(c *ssa.CallCommon, mods map[string]bool) bool {
 		}
 	}
 	fc, key := x.contractOf(callee)
+	inlineHere := false
+	if x.fc != nil && callee.Blocks != nil {
+		for _, sub := range x.fc.InlineHere {
+			if strings.Contains(key, sub) {
+				inlineHere = true
+			}
+		}
+	}
+	if inlineHere {
+		all := false
+		for _, b := range callee.Blocks {
+			for _, in := range b.Instrs {
+				all = x.instrModifies(in, mods) || all
+			}
+		}
+		return all
+	}
 	if fc != nil {
 		if fc.ModAll {
 			return true
@@ -1274,6 +1317,12 @@ func (x *Exec) enterBlock(st *State, b, pred *ssa.BasicBlock) bool {
 	}
 	// loop head
 	spec := x.loopSpec(fr.fn, ord)
+	envOf := func() *Env { return x.specEnv(st, fr, nil) }
+	if il := x.inlinedLoopSpec(st, fr, ord); il != nil {
+		// the caller's contract gives this inlined loop's invariants (they talk about the caller's state)
+		spec = il
+		envOf = func() *Env { return x.inlinedEnv(st, fr) }
+	}
 	back := b.Dominates(pred) && pred != nil && x.inLoop[b][pred]
 	// temporarily bind phis to incoming values for invariant evaluation
 	for i, phi := range phis {
@@ -1292,7 +1341,7 @@ func (x *Exec) enterBlock(st *State, b, pred *ssa.BasicBlock) bool {
 		x.dropped[fmt.Sprintf("loop %d of %s cut with invariant 'true'", ord, shortKey(fname))]++
 	} else {
 		for _, inv := range spec.Invariants {
-			t := x.evalBool(st, inv.SX, x.specEnv(st, fr, nil))
+			t := x.evalBool(st, inv.SX, envOf())
 			x.emit(st, kind, fmt.Sprintf("%s/loop%d:%s", fname, ord, inv.Name), inv, t)
 		}
 	}
@@ -1302,7 +1351,7 @@ func (x *Exec) enterBlock(st *State, b, pred *ssa.BasicBlock) bool {
 		}
 		if spec != nil {
 			for _, stp := range spec.Steps {
-				env := x.specEnv(st, fr, nil)
+				env := envOf()
 				if snap := fr.loopSnap[ord]; snap != nil {
 					env.lheaps, env.lepoch, env.lnow, env.llocals = snap.heaps, snap.epoch, snap.now, snap.locals
 				}
@@ -1338,7 +1387,7 @@ func (x *Exec) enterBlock(st *State, b, pred *ssa.BasicBlock) bool {
 	if spec != nil {
 		nb := len(st.lines)
 		for _, inv := range spec.Invariants {
-			t := x.evalBool(st, inv.SX, x.specEnv(st, fr, nil))
+			t := x.evalBool(st, inv.SX, envOf())
 			x.assume(st, t)
 		}
 		if len(st.stack) == 1 {
@@ -1367,6 +1416,56 @@ func (x *Exec) loopSpec(fn *ssa.Function, ord int) *LoopSpec {
 		return nil
 	}
 	return fc.Loops[ord]
+}
+
+// inlinedLoopSpec: the contract of the function under verification may give the invariants of a loop of an inlined
+// callee (`loop <callee-substring>[#<site>]:<N> invariant ...`): they are about the caller's state and are evaluated
+// in the caller's environment extended with the callee's parameters and locals.
+func (x *Exec) inlinedLoopSpec(st *State, fr *Frame, ord int) *LoopSpec {
+	if x.fc == nil || len(x.fc.InlLoops) == 0 || len(st.stack) < 2 || fr == st.stack[0] {
+		return nil
+	}
+	key := x.funcKeyOf(fr.fn)
+	for k, ls := range x.fc.InlLoops {
+		c := strings.LastIndex(k, ":")
+		n, _ := strconv.Atoi(k[c+1:])
+		if n != ord {
+			continue
+		}
+		name, site := k[:c], 0
+		if h := strings.LastIndex(name, "#"); h >= 0 {
+			if sn, err := strconv.Atoi(name[h+1:]); err == nil {
+				name, site = name[:h], sn
+			}
+		}
+		if strings.Contains(key, name) && (site == 0 || site == fr.site) {
+			return ls
+		}
+	}
+	return nil
+}
+
+// inlinedEnv: the environment of the function under verification, extended with the parameters and locals of the
+// inlined frame (which do not shadow the caller's names).
+func (x *Exec) inlinedEnv(st *State, fr *Frame) *Env {
+	env := x.specEnv(st, st.stack[0], nil)
+	ne := env.child()
+	for _, p := range fr.fn.Params {
+		if _, clash := ne.vars[p.Name()]; !clash {
+			ne.vars[p.Name()] = fr.vals[p]
+		}
+	}
+	merged := map[string]Val{}
+	for k, v := range st.stack[0].locals {
+		merged[k] = v
+	}
+	for k, v := range fr.locals {
+		merged[k] = v // the innermost loop variables are those of the inlined frame
+	}
+	nf := *st.stack[0]
+	nf.locals = merged
+	ne.fr = &nf
+	return ne
 }
 
 func (x *Exec) funcKeyOf(fn *ssa.Function) string {
@@ -1469,6 +1568,13 @@ func (x *Exec) emit(st *State, kind, name string, c Clause, goal string) {
 		props = x.fc.Props
 	}
 	ob := &Obligation{Func: x.funcKeyOf(x.fn), Kind: kind, Name: name, Props: props, Path: strings.Join(st.path, "."), Src: c.Src, Expect: "unsat"}
+	if st.facts[strings.TrimSpace(goal)] {
+		// the goal is literally a formula assumed earlier on this path
+		ob.Result, ob.Solver = "unsat", "syntactic"
+		ob.Script = "; goal is a conjunct assumed on this path: " + name + "\n"
+		x.obs = append(x.obs, ob)
+		return
+	}
 	ob.Script = strings.Join(st.lines, "\n") + "\n(assert (not " + goal + "))\n"
 	x.obs = append(x.obs, ob)
 }
